@@ -54,6 +54,9 @@ func checkC12(c *Ctx) {
 	c.Rule("C12-R18", "motion with no button held carries no buttons, whatever button number the report names: the fold of such a report is decided by the held flag (and the motion bit), not by the button bits of the code")
 	c.Expect("C12-R18", 1)
 	checkMotionFoldIgnoresButtonBits(c, p, "C12-R18")
+	c.Rule("C12-R20", "reports introduced by the 8-bit CSI decode like those introduced by ESC [: the calls of the two mouse parsers in the collect loop are not behind a test of the first byte against ESC (focus and clipboard reports are 7-bit only, mouse reports are not)")
+	c.Expect("C12-R20", 1)
+	checkMouseParsersSeeEveryIntroducer(c, p, "C12-R20")
 	c.Rule("C12-R19", "a report split across reads is one mouse event: each mouse parser's 'partial' answer is counted on its own (one shared pair of results lets the second parser's 'not mine' overwrite the first one's 'wait'; = C02-R8)")
 	c.Expect("C12-R19", 2)
 	if collect := collectLoopFn(p); collect != nil {
